@@ -6,7 +6,8 @@
    ignores the stored state, and random attribute generation over an arbitrary oracle stream of
    random draws. *)
 From Coq Require Import List Bool String ZArith.
-From FM Require Import Base.Result Model.FM Model.Queries Model.Metrics Model.GenRandom Proofs.C17Facts Proofs.C19Facts.
+From FM Require Import Base.Result Model.FM Model.Queries Model.Metrics Model.GenRandom Model.PyRt Gen.Src_ops
+     Gen.Src_opobj Proofs.C17Facts Proofs.C19Facts Proofs.SrcObjFacts.
 Import ListNotations.
 Local Open Scope list_scope.
 
@@ -60,6 +61,51 @@ Theorem C19_gen_value_strict : forall nm d ol draws m m' f,
     attrs_of (name f) (root m') = Some (f_attrs (info f) ++ [{| a_name := nm; a_dom := Some d; a_default := gval_aval g; a_null := VNone |}]).
 Proof. exact gen_attrs_in_domain_strict. Qed.
 Print Assumptions C19_gen_value_strict.
+
+(* ---- the operation OBJECTS of operations/*.py, translated from the source as state records (Gen/Src_opobj.v,
+   regenerated on every run; DESIGN §10): in ANY state s — after any history of earlier executions on this or
+   other models — the result reported after execute(m) is the value of the module-level function on m. ---- *)
+Theorem C19_source_objects_depend_on_argument_only : forall fuel m,
+  (forall s, rmap py_FMEstimatedConfigurationsNumber_get_result (py_FMEstimatedConfigurationsNumber_execute fuel s m)
+             = py_count_configurations fuel m) /\
+  (forall s, rmap py_FMCoreFeatures_get_result (py_FMCoreFeatures_execute fuel s m) = py_get_core_features fuel m) /\
+  (forall s, rmap py_FMCountLeafs_get_result (py_FMCountLeafs_execute fuel s m) = py_count_leaf_features fuel m) /\
+  (forall s, rmap py_FMLeafFeatures_get_result (py_FMLeafFeatures_execute fuel s m) = py_get_leaf_features fuel m) /\
+  (forall s, rmap py_FMMaxDepthTree_get_result (py_FMMaxDepthTree_execute fuel s m) = py_max_depth_tree fuel m) /\
+  (forall s, rmap py_FMAverageBranchingFactor_get_result (py_FMAverageBranchingFactor_execute fuel s m)
+             = py_average_branching_factor fuel m 2%Z) /\
+  (forall s, rmap py_FMVariationPoints_get_result (py_FMVariationPoints_execute fuel s m) = py_variation_points fuel m) /\
+  (forall s x, rmap py_FMFeatureAncestors_get_result
+                 (py_FMFeatureAncestors_execute fuel (py_FMFeatureAncestors_set_feature s x) m)
+               = py_get_feature_ancestors fuel x).
+Proof.
+  intros fuel m.
+  exact (conj (fun s => src_obj_estimate fuel s m) (conj (fun s => src_obj_core fuel s m)
+        (conj (fun s => src_obj_count_leafs fuel s m) (conj (fun s => src_obj_leaf_features fuel s m)
+        (conj (fun s => src_obj_max_depth fuel s m) (conj (fun s => src_obj_abf fuel s m)
+        (conj (fun s => src_obj_variation_points fuel s m) (fun s x => src_obj_ancestors fuel s x m)))))))).
+Qed.
+Print Assumptions C19_source_objects_depend_on_argument_only.
+
+(* the same along a whole history of executions from a fresh object *)
+Theorem C19_source_core_history : forall fuel ms m s,
+  run_core fuel ms = Ok s ->
+  rmap py_FMCoreFeatures_get_result (py_FMCoreFeatures_execute fuel s m) = py_get_core_features fuel m.
+Proof. exact src_obj_core_history. Qed.
+Print Assumptions C19_source_core_history.
+
+Theorem C19_source_estimate_history : forall fuel ms m s,
+  run_estimate fuel ms = Ok s ->
+  rmap py_FMEstimatedConfigurationsNumber_get_result (py_FMEstimatedConfigurationsNumber_execute fuel s m)
+  = py_count_configurations fuel m.
+Proof. exact src_obj_estimate_history. Qed.
+Print Assumptions C19_source_estimate_history.
+
+(* a feature-ancestors object without a feature reports the library error *)
+Theorem C19_source_ancestors_unset : forall fuel m,
+  py_FMFeatureAncestors_execute fuel py_FMFeatureAncestors_new m = Err FlamaException.
+Proof. exact src_obj_ancestors_unset. Qed.
+Print Assumptions C19_source_ancestors_unset.
 
 Example C19_nonvacuous : True.
 Proof. exact I. Qed.
